@@ -301,6 +301,8 @@ impl ConnectionState {
                         AmqpBasic::CancelOk(cancel_ok),
                     ))),
                 )?;
+                #[cfg(amiquip_verif)]
+                super::verif_probe::sched_point(2);
                 if let Some(tx) = consumer {
                     send(&tx, ConsumerMessage::ClientCancelled)?;
                 }
